@@ -27,7 +27,40 @@ from ..report import Check, canon
 RV = "xknx.remote_value.remote_value"
 
 
+def table_store(chk: Check, repo: Repo) -> None:
+    """"The configured type" of an address is the last one assigned to it: the table is a plain dict keyed by the
+    address's raw value — created empty (__init__, clear), written only by `self._ga_dpts[<address>.raw] = <transcoder>`
+    in set() (so a later set() replaces an earlier entry), and read by `self._ga_dpts.get(<address>.raw)` in get()."""
+    GD = "xknx.core.group_address_dpt"
+    ws = [w for w in attr_writes(repo, "_ga_dpts", include_mutators=True) if w.func.module.name == GD]
+    chk.count("writers of the address/type table", len(ws))
+    chk.floor("writers of the address/type table", len(ws), 3)
+    for w in ws:
+        q, st = w.func.qualname, w.stmt
+        ok = False
+        if q in ("GroupAddressDPT.__init__", "GroupAddressDPT.clear"):
+            v = st.value if isinstance(st, (ast.Assign, ast.AnnAssign)) else None
+            ok = isinstance(v, ast.Dict) and not v.keys
+        elif q == "GroupAddressDPT.set" and isinstance(st, ast.Assign) and len(st.targets) == 1 and isinstance(st.targets[0], ast.Subscript):
+            t = st.targets[0]
+            key_ok = ast.unparse(t.value) == "self._ga_dpts" and isinstance(t.slice, ast.Attribute) and t.slice.attr == "raw" and isinstance(t.slice.value, ast.Name)
+            val_ok = isinstance(st.value, ast.Name)
+            if key_ok and val_ok:
+                from ..astx import inline_locals
+                kdef = ast.unparse(inline_locals(w.func.node, t.slice.value))
+                vdef = [n for n in ast.walk(w.func.node) if isinstance(n, ast.NamedExpr) and n.target.id == st.value.id] + [n for n in walk_local(w.func.node) if isinstance(n, ast.Assign) and len(n.targets) == 1 and isinstance(n.targets[0], ast.Name) and n.targets[0].id == st.value.id]
+                ok = kdef.startswith("parse_device_group_address(") and len(vdef) == 1 and isinstance(vdef[0].value, ast.Call) and call_name(vdef[0].value) == "DPTBase.parse_transcoder"
+        chk.ob("last-assignment-is-the-configured-type", w.func.site(st), ok, f"{q}: `{canon(st)[:90]}`" + ("" if ok else " — not one of: empty dict in __init__/clear, `self._ga_dpts[<parsed address>.raw] = <parsed transcoder>` in set (an entry written any other way, e.g. merged so that old entries win, leaves telegrams decoded by a type that is no longer configured)"), key=f"table|{q}|{w.kind}")
+    g = repo.func(GD, "GroupAddressDPT.get")
+    chk.unit(g)
+    rets = [n for n in walk_local(g.node) if isinstance(n, ast.Return)]
+    ap = g.node.args.args[1].arg
+    ok = len(rets) == 1 and ast.unparse(rets[0].value) in (f"self._ga_dpts.get({ap}.raw)", f"self._ga_dpts.get({ap}.raw, None)")
+    chk.ob("last-assignment-is-the-configured-type", g.site(), ok, f"get() returns `{ast.unparse(rets[0].value) if rets else '?'}` (same key as set() stores under)", key="table|get")
+
+
 def run(chk: Check, repo: Repo) -> None:
+    table_store(chk, repo)
     base = repo.cls(RV, "RemoteValue")
     proc = repo.func(RV, "RemoteValue.process")
     chk.unit(proc)
